@@ -167,6 +167,22 @@ func (lex *Lexer) Lex() *token.Token {
 			lex.ungetCnt(1)
 		}
 		goto _again
+	tr12:
+		lex.te = (lex.p) + 1
+		{
+			// bad (comment-kind): which comments are doc comments
+			isDocComment := false
+			if lex.te-lex.ts > 3 && string(lex.data[lex.ts:lex.ts+3]) == "/**" {
+				isDocComment = true
+			}
+
+			if isDocComment {
+				lex.addFreeFloatingToken(tkn, token.T_DOC_COMMENT, lex.ts, lex.te)
+			} else {
+				lex.addFreeFloatingToken(tkn, token.T_COMMENT, lex.ts, lex.te)
+			}
+		}
+		goto st1
 	st1:
 		lex.ts = 0
 
@@ -176,6 +192,9 @@ func (lex *Lexer) Lex() *token.Token {
 	st_case_1:
 		lex.ts = (lex.p)
 
+		if lex.data[(lex.p)] == 47 {
+			goto tr12
+		}
 		goto tr0
 	st_case_0:
 		lex.cs = 0
